@@ -4,6 +4,7 @@
    heads with their defining rules, bridge rules and assumptions are a definitional extension). *)
 From Coq Require Import List Bool Arith ZArith Lia.
 Require Import HT TEL TELext DecP DefElim CoreRun Window Combined GenPrelude FromSource Loop Leaf_imain LoopProofs FromTransformers Ctx FutTransform FutTransformProofs.
+Require FutureHeads.
 
 (* The instances accumulated by the incremental run of steps 0..h for look-ahead constraints (any depth, any part) are
    satisfied exactly if every constraint holds, read with atoms beyond h false, at every admissible position k <= h:
@@ -119,6 +120,28 @@ Theorem C02_future_atoms_only_in_heads_of_normal_rules : forall (A : Type) (r : 
   | FCons _ => qh A (t_rule A t) = QHCons A /\ t_fut A t = []
   end.
 Proof. exact accepted_rule_shape. Qed.
+(* future heads, concretely (Proofs/FutureHeads.v): for the rewritten program of the transformer model - `__future_p(n, __t+n) :- body` in the part of
+   the rule, bridge rules, assumptions beyond the horizon - next to any rest G without auxiliary atoms and for any grounding Bg of rule bodies without
+   auxiliary atoms, the equilibrium models of the program with the auxiliaries are, up to the (determined) values of the auxiliaries, those of the
+   program without them, ... *)
+Theorem C02_future_heads_eliminate : forall (A : Type) (D : forall a b : A, {a = b} + {a <> b}) (o : output A) (h : nat) (G : theory (FutureHeads.xatom A)),
+  (forall f, G f -> clean (FutureHeads.xatom A) (FutureHeads.isx A) f) -> forall (Bg : list (fsgn * qatom A) -> nat -> form (FutureHeads.xatom A)), (forall bd t, clean (FutureHeads.xatom A) (FutureHeads.isx A) (Bg bd t)) ->
+  forall T : interp (FutureHeads.xatom A),
+    (equilibriumP (FutureHeads.xatom A) T (FutureHeads.program_with_future_atoms A D o h G Bg) ->
+     canonical (FutureHeads.xatom A) (FutureHeads.isx A) (FutureHeads.defs A D o h Bg) T /\ equilibrium_clean (FutureHeads.xatom A) (FutureHeads.isx A) T (FutureHeads.program_without_future_atoms A D o h G Bg)) /\
+    (canonical (FutureHeads.xatom A) (FutureHeads.isx A) (FutureHeads.defs A D o h Bg) T -> equilibrium_clean (FutureHeads.xatom A) (FutureHeads.isx A) T (FutureHeads.program_without_future_atoms A D o h G Bg) ->
+     equilibriumP (FutureHeads.xatom A) T (FutureHeads.program_with_future_atoms A D o h G Bg)).
+Proof.
+  intros A D o h G Gc Bg Bc T. split; [exact (FutureHeads.future_heads_elim_forward A D o h G Gc Bg Bc T)|exact (FutureHeads.future_heads_elim_backward A D o h G Bg Bc T)].
+Qed.
+(* ... and that program says: every instance, at an admissible state t <= h, of a rule whose head has n primes derives the head atom at state t+n when
+   that state exists and forces its body to be false when it does not *)
+Theorem C02_future_head_reading : forall (A : Type) (D : forall a b : A, {a = b} + {a <> b}) (o : output A) (h : nat) (G : theory (FutureHeads.xatom A))
+  (Bg : list (fsgn * qatom A) -> nat -> form (FutureHeads.xatom A)) (f : form (FutureHeads.xatom A)),
+  FutureHeads.program_without_future_atoms A D o h G Bg f <->
+  G f \/ exists rt r a n t, In (rt, r) (o_main A o) /\ FutureHeads.head_is A D r a n = true /\ t <= h /\ FutureHeads.selected rt t = true /\
+         f = Imp _ (Bg (qb A r) t) (if t + n <=? h then Var _ (FutureHeads.XG A (CoreRun.GU A a (Z.of_nat (t + n)))) else Bot _).
+Proof. exact FutureHeads.program_without_future_atoms_spec. Qed.
 Print Assumptions C02_window_exact.
 Print Assumptions C02_temporary_copy_live.
 Print Assumptions C02_no_stale_instance.
@@ -133,3 +156,5 @@ Print Assumptions C02_transformer_emits_the_window_copies.
 Print Assumptions C02_transformer_lists_the_window_parts.
 Print Assumptions C02_future_heads_have_bridge_rules.
 Print Assumptions C02_future_atoms_only_in_heads_of_normal_rules.
+Print Assumptions C02_future_heads_eliminate.
+Print Assumptions C02_future_head_reading.
